@@ -577,11 +577,20 @@ func getMultiBestPath(id string, pathList []*Path) []*Path {
 	}
 	best := pathList[0]
 
-	// Attempt to find the first path that is both reachable and worse than the
-	// best path. Then return a slice paths from the best to that index.
-	index := sort.Search(len(pathList), func(i int) bool {
-		return pathList[i].IsNexthopInvalid || pathList[i].Compare(best) != 0
-	})
+	// Return the paths from the best one up to the first path that is unreachable
+	// or worse than the best path. "Compares equal to the best path" is not monotone
+	// along the sorted list (LLGR-stale paths sort after every other path, whatever
+	// their attributes, and Compare knows nothing of that), so the end of that run
+	// is walked to rather than searched for: a binary search could land behind a
+	// worse path and hand it out as an equal-cost one.
+	index := 1
+	for index < len(pathList) {
+		p := pathList[index]
+		if p.IsNexthopInvalid || p.IsLLGRStale() != best.IsLLGRStale() || p.Compare(best) != 0 {
+			break
+		}
+		index++
+	}
 	return pathList[:index]
 }
 
